@@ -262,17 +262,18 @@ func (e *Engine) initFor(p *ssa.Package) *initResult {
 			}
 			continue
 		}
-		for _, id := range x.initAllocated {
-			if cur.S.K == SArray && cur.S.Idx == e.ar.I() {
-				v := SelectD(cur, id)
-				if v.Op == "select" && v.Args[0] == cur {
-					// untouched at this id
-					if _, ok := termDefs[cur.Name]; !ok {
-						continue
-					}
-				}
-				res.facts = append(res.facts, Eq(Select(init0, id), v))
+		if cur.S.K != SArray {
+			continue
+		}
+		// every index written during initialisation (walk the store chain down to the initial version)
+		seenIdx := map[string]bool{}
+		for c := deref(cur); c.Op == "store"; c = deref(c.Args[0]) {
+			idx := c.Args[1]
+			if seenIdx[idx.Key()] {
+				continue
 			}
+			seenIdx[idx.Key()] = true
+			res.facts = append(res.facts, Eq(Select(init0, idx), SelectD(cur, idx)))
 		}
 	}
 	if len(x.initAllocated) > 0 {
